@@ -450,7 +450,7 @@ S(id="UB.uninit.history", props=["C12"], spec="native/history_enum.c", mode="N",
   functions=["yaep_create_grammar", "yaep_parse_grammar", "yaep_read_grammar", "yaep_parse", "yaep_free_grammar", "yaep_free_tree"],
   what="no branch, address or library call of the real code depends on uninitialised memory along any of the histories (definitions that fail, parses with error recovery, redefinitions, frees)")
 S(id="UB.uninit.trees", props=["C12"], spec="native/cost_enum.c", mode="N", sanitize="memory", link=["allocate.c", "hashtab.c", "objstack.c", "vlobject.c", "yaep.c"], harness="main",
-  params={"quick": {"CMAX": 1}, "thorough": {"CMAX": 2}}, timeout=3000,
+  params={"quick": {"CMAX": 1, "UNINIT_ONLY": 1}, "thorough": {"CMAX": 2, "UNINIT_ONLY": 1}}, timeout=3000,
   bound="the ambiguous cost families of P.cost.native with costs 0..1 (thorough 0..2), the library built with MemorySanitizer",
   functions=["yaep_parse", "make_parse", "find_minimal_translation", "yaep_free_tree"],
   what="no use of uninitialised memory while ambiguous DAGs are built, pruned by cost, walked and freed")
